@@ -116,6 +116,11 @@ def _convert_contract(ctx, run):
                 bad.append((ret, "returns `%s` which owns no reference" % rvar))
             if pname in S and rvar in S:
                 bad.append((ret, "returns a new reference without releasing the old page"))
+        elif ret is not None and f.exprs[ret].get("c"):
+            r = f.exprs[ex.skip(f, f.exprs[ret]["c"][0])]
+            if r["k"] == "call" and r.get("callee") in PAGE_ACQ and pname in S:
+                bad.append((ret, "returns the result of %s() directly: when that is a new reference the old page is never released"
+                            % r.get("callee")))
     key = "RF-PAIR/page:vbi_convert_page:contract"
     if bad:
         for ret, msg in bad:
